@@ -76,6 +76,11 @@ Definition node_from_int (cache : gmap positive Z) (uid : Z) : MA Z :=
   check_in k ;;;
   ret (if decide (uid < 0)%Z then (- k)%Z else k).
 
+(** a temporary [Function] that lives for the duration of [body]: Python
+    releases it when the frame is left, normally or by an exception *)
+Definition with_tmp {A} (u : Z) (body : MA A) : MA A :=
+  tmp_new u ;;; r <- catch body ;; tmp_del u ;;; reraise r.
+
 (** [_make_node]: the [Function]s [low], [high], [g], [u] live until the
     call returns; the memo holds an explicit reference *)
 Definition make_node (var_at_level : nat -> option nat) (load_order : bool)
@@ -83,21 +88,55 @@ Definition make_node (var_at_level : nat -> option nat) (load_order : bool)
   : MA (gmap positive Z) :=
   let '(k, (level, lo, hi)) := line in
   if decide (is_Some (cache !! k)) then ret cache else
-  low <- node_from_int cache (jref_id lo) ;; tmp_new low ;;;
-  high <- node_from_int cache (jref_id hi) ;; tmp_new high ;;;
-  v <- of_opt EKey (var_at_level level) ;;
-  u <- (if load_order then
-          l <- lift (level_of_var v) ;;
-          u <- lift (find_or_add l low high) ;; tmp_new u ;;; ret u
-        else
-          g <- lift (var v) ;; tmp_new g ;;;
-          check_in g ;;; check_in high ;;; check_in low ;;;
-          u <- lift (ite g high low) ;; tmp_new u ;;;
-          tmp_del g ;;; ret u) ;;
-  assert (bool_decide (0 < u)%Z) ;;;
-  lift (incref u) ;;;
-  tmp_del u ;;; tmp_del high ;;; tmp_del low ;;;
-  ret (<[k := u]> cache).
+  low <- node_from_int cache (jref_id lo) ;;
+  with_tmp low (
+    high <- node_from_int cache (jref_id hi) ;;
+    with_tmp high (
+      v <- of_opt EKey (var_at_level level) ;;
+      u <- (if load_order then
+              l <- lift (level_of_var v) ;; lift (find_or_add l low high)
+            else
+              g <- lift (var v) ;;
+              with_tmp g (
+                check_in g ;;; check_in high ;;; check_in low ;;;
+                lift (ite g high low))) ;;
+      with_tmp u (
+        assert (bool_decide (0 < u)%Z) ;;;
+        lift (incref u) ;;;
+        ret (<[k := u]> cache)))).
+
+(** the loop over the node lines; a failing line stops it and reports the
+    memo as it stands (the loader releases it, since the repair of
+    [dd._copy._load_json]) *)
+Fixpoint make_nodes (var_at_level : nat -> option nat) (load_order : bool)
+    (cache : gmap positive Z) (lines : list (positive * (nat * jref * jref)))
+  : MA (gmap positive Z * option err) :=
+  match lines with
+  | [] => ret (cache, None)
+  | l :: ls =>
+      r <- catch (make_node var_at_level load_order cache l) ;;
+      match r with
+      | Ok cache' => make_nodes var_at_level load_order cache' ls
+      | Err e => ret (cache, Some e)
+      end
+  end.
+
+(** the nodes of the roots (each is looked up, wrapped and, if a later one
+    fails, dropped again: no net effect, so all lookups come first) *)
+Definition root_nodes (cache : gmap positive Z) (roots : rootsC) : MA rootsC :=
+  match roots with
+  | RNone => raise EKey
+  | RList l => l' <- mapM (node_from_int cache) l ;; ret (RList l')
+  | RDict d => d' <- mapM (fun '(n, k) => u <- node_from_int cache k ;; ret (n, u)) d ;;
+               ret (RDict d')
+  end.
+
+Definition wrap_roots (roots : rootsC) : MA rootsH :=
+  match roots with
+  | RNone => raise EKey
+  | RList l => l' <- mapM wrap l ;; ret (HList l')
+  | RDict d => d' <- mapM (fun '(n, u) => h <- wrap u ;; ret (n, h)) d ;; ret (HDict d')
+  end.
 
 (** [load_json(file, bdd, load_order)] *)
 Definition a_load_json (jf : jfile) (load_order : bool) : MA rootsH :=
@@ -112,23 +151,28 @@ Definition a_load_json (jf : jfile) (load_order : bool) : MA rootsH :=
     | Some (_, (v, _)) => Some v
     | None => None
     end in
-  cache <- foldM (make_node var_at_level load_order) ∅ (jf_nodes jf) ;;
-  hroots <- match jf_roots jf with
-            | RNone => raise EKey
-            | RList l => l' <- mapM (fun k => u <- node_from_int cache k ;; wrap u) l ;;
-                         ret (HList l')
-            | RDict d => d' <- mapM (fun '(n, k) => u <- node_from_int cache k ;;
-                                                    h <- wrap u ;; ret (n, h)) d ;;
-                         ret (HDict d')
-            end ;;
-  (* rm refs to cached nodes *)
-  forM (map_to_list cache) (fun '(_, u) =>
-    tmp_new u ;;;
-    r <- lift (ref u) ;;
-    assert (bool_decide (2 <= r)) ;;;
-    (if load_order then assert (bool_decide (3 <= r)) else ret tt) ;;;
-    lift (decref u) ;;;
-    tmp_del u) ;;;
-  (* configure(reordering=old_reordering): the saved value is a dict, which is true *)
-  (if load_order then lift (configure (Some true)) ;;; ret tt else ret tt) ;;;
-  ret hroots.
+  r <- make_nodes var_at_level load_order ∅ (jf_nodes jf) ;;
+  let '(cache, failed) := r in
+  nodes <- match failed with
+           | Some e => ret (Err e)
+           | None => catch (root_nodes cache (jf_roots jf))
+           end ;;
+  match nodes with
+  | Err e =>
+      (* the file cannot be loaded: release the memo's references *)
+      forM (map_to_list cache) (fun '(_, u) => lift (decref u)) ;;;
+      raise e
+  | Ok nodes =>
+      hroots <- wrap_roots nodes ;;
+      (* rm refs to cached nodes *)
+      forM (map_to_list cache) (fun '(_, u) =>
+        tmp_new u ;;;
+        r <- lift (ref u) ;;
+        assert (bool_decide (2 <= r)) ;;;
+        (if load_order then assert (bool_decide (3 <= r)) else ret tt) ;;;
+        lift (decref u) ;;;
+        tmp_del u) ;;;
+      (* configure(reordering=old_reordering): the saved value is a dict, which is true *)
+      (if load_order then lift (configure (Some true)) ;;; ret tt else ret tt) ;;;
+      ret hroots
+  end.
